@@ -5,7 +5,7 @@ import Driver.Util
   `C09 hist <orig 0|1> <init> <ops>`
     init : 6 comma separated on-disk dtypes (`u8 i16 i32 f32 f64`) or `-` (file absent), in the order
            a.nii a.nii.gz b.nii a.img a.mgh a.mgz; file i starts with data id i, affine id i, tag 0, unscaled
-    ops  : comma separated  L<path 0-5><mmap 0|1>[@spelling] | F | U | E<k> | A<k> | D<dt> | S<path>[@spelling] | B
+    ops  : comma separated  L<path 0-5><mmap 0|1>[@spelling] | F | U | E<k> | A<k> | H<k> | D<dt> | S<path>[@spelling] | B
   output: one token per op, then `live=…` and `fs=…` (nothing after the first `BAD`, also not after `live=BAD`).
 -/
 namespace Nb.Drv.C09
@@ -49,11 +49,12 @@ def parseOp? (s0 : String) : Option Op :=
   else if s.startsWith "S" then (parsePath? (s.drop 1).toString).map Op.save
   else if s.startsWith "E" then ((s.drop 1).toString.toNat?).map Op.edit
   else if s.startsWith "A" then ((s.drop 1).toString.toNat?).map Op.setAff
+  else if s.startsWith "H" then ((s.drop 1).toString.toNat?).map Op.hdrEdit
   else if s.startsWith "D" then (parseDT? (s.drop 1).toString).map Op.setDt
   else none
 
 def opLetter : Op → String
-  | .load _ _ => "L" | .fdata => "F" | .uncache => "U" | .edit _ => "E" | .setAff _ => "A"
+  | .load _ _ => "L" | .fdata => "F" | .uncache => "U" | .edit _ => "E" | .setAff _ => "A" | .hdrEdit _ => "H"
   | .setDt _ => "D" | .save _ => "S" | .toBytes => "B"
 
 def showContent (c : Content) : String :=
@@ -91,7 +92,7 @@ def showLive (s : St) : String :=
   | some _, none => "live=BAD"
   | some _, some none => "live=none"
   | some im, some (some (d, d2)) =>
-      "live=" ++ showCls im.cls ++ "/" ++ showDT im.dt ++ "/" ++ toString im.tag ++ "/" ++ toString im.aff ++ "/" ++
+      "live=" ++ showCls im.cls ++ "/" ++ showDT im.dt ++ "/" ++ toString im.tag ++ "/" ++ toString im.aff ++ "/h" ++ toString im.hdrAff ++ "/" ++
         (match im.fname with | some p => toString (pathIdx p) | none => "-") ++ "/" ++ toString d ++ "/" ++ toString d2
 
 /-- run, printing tokens; mirrors `Nb.C09.run` (stops at the first bad) -/
